@@ -191,6 +191,8 @@ def replay(case):
         r = public_fault({"kind": case["kind"], "only": [case["public_fault"], tuple(case["a"]), tuple(case["o"]),
                                                          tuple(case["t"]), case["policy"]]})
         return [(sg, d) for sg, d, _c in r["viol"]]
+    if case.get("bulk"):
+        return [(s_, d) for s_, d, _c in bulk_merge(case)["viol"]]
     if case.get("public"):
         # the public merges run as one session on one store (merge must be a pure function of its arguments,
         # whatever was merged before): replay the session up to and including the reported call
@@ -198,12 +200,12 @@ def replay(case):
         target = (tuple(case["a"]) if case["a"] is not None else None, tuple(case["o"]), tuple(case["t"]),
                   case["policy"])
         with World() as w:
-            odb, infos = _public_store(w, case["kind"], PKEYS, vals)
+            odb, infos = _public_store(w, case["kind"], PKEYS, vals, case.get("alg", "md5"))
             for a in [None, *vals]:
                 for o in vals:
                     for t in vals:
                         for pol in case.get("policies") or list(POLICIES):
-                            v, _out = public_one(odb, infos, a, o, t, pol)
+                            v, _out = public_one(odb, infos, a, o, t, pol, case.get("alg", "md5"))
                             if (a, o, t, pol) == target:
                                 return v
         return []
@@ -216,21 +218,23 @@ def replay(case):
 # ---- the public merge() on stored listings --------------------------------
 
 
-def _public_store(w, kind, keys, vals):
-    odb = make_odb(kind, w.p("store"))
+def _public_store(w, kind, keys, vals, alg="md5"):
+    """Listings stored in a store of algorithm `alg` (entries keyed by that algorithm's name)."""
+    odb = make_odb(kind, w.p("store"), **({"hash_name": alg} if alg != "md5" else {}))
     infos = {}
     for v in vals:
         entries = {"/".join(k): H[x] for k, x in zip(keys, v) if x}
-        oid = ref.tree_oid(entries)
-        put_raw(odb, oid, ref.tree_bytes(entries))
-        infos[v] = hi(oid)
+        jkey = "md5" if alg == "md5-dos2unix" else alg   # legacy listings are keyed "md5" on disk
+        oid = ref.tree_oid(entries, jkey)
+        put_raw(odb, oid, ref.tree_bytes(entries, jkey))
+        infos[v] = hi(oid, alg)
     return odb, infos
 
 
 PKEYS = [("d-x", "y"), ("d", "c")]
 
 
-def public_one(odb, infos, a, o, t, pol):
+def public_one(odb, infos, a, o, t, pol, alg="md5"):
     from dvc_data.hashfile.tree import MergeError, Tree, merge
 
     keys = PKEYS
@@ -254,8 +258,12 @@ def public_one(odb, infos, a, o, t, pol):
         viol.append(("public-conflict-silently-resolved", f"{got}"))
     elif got != exp:
         viol.append(("public-wrong-merge", f"expected {exp} got {got}"))
-    if m.oid != ref.tree_oid(got) or not isinstance(m, Tree):
+    if not isinstance(m, Tree) or (alg == "md5" and m.oid != ref.tree_oid(got)):
+        # (for a store of another algorithm only the merged entries are claimed, not the identifier's form)
         viol.append(("merged-id-not-canonical", f"oid {m.oid} != {ref.tree_oid(got)}"))
+    names = {oid.name for _k, _m, oid in m if oid}
+    if names - {alg}:
+        viol.append(("merged-entries-named-by-another-algorithm", f"{names} in a {alg} store"))
     if m.hash_info is None or m.hash_info.value != m.oid:
         viol.append(("merged-hash-info-mismatch", repr(m.hash_info)))
     return viol, "ok"
@@ -319,22 +327,55 @@ def public_fault(case):
     return res
 
 
+def bulk_merge(case):
+    """Listings of 20000 entries (their JSON is larger than the 1 MiB hashing chunk): both sides add one entry."""
+    from dvc_data.hashfile.tree import merge
+
+    res = {"n": 1, "trans": 1, "states": [digest_obj("bulk-merge")], "outcomes": set(), "nontrivial": [digest_obj("bulk-merge")],
+           "viol": [], "vac": {"bulk_merges": 1}}
+    n = 20000
+    base = {f"dir{i % 50:02d}/file-{i:05d}": ref.md5(b"%d" % i) for i in range(n)}
+    ours = dict(base, **{"ours-new": H[1]})
+    theirs = dict(base, **{"zz/theirs-new": H[2]})
+    with World() as w:
+        odb = make_odb(case["kind"], w.p("store"))
+        infos = []
+        for entries in (base, ours, theirs):
+            put_raw(odb, ref.tree_oid(entries), ref.tree_bytes(entries))
+            infos.append(hi(ref.tree_oid(entries)))
+        try:
+            m = merge(odb, *infos)
+        except Exception as e:  # noqa: BLE001
+            res["viol"].append((f"bulk-merge-raises-{type(e).__name__}", repr(e)[:300], {"bulk": True, "kind": case["kind"]}))
+            return res
+        got = {"/".join(k): oid.value for k, _m, oid in m}
+        want = dict(base, **{"ours-new": H[1], "zz/theirs-new": H[2]})
+        if got != want:
+            res["viol"].append(("bulk-merge-wrong-entries", f"{len(got)} entries", {"bulk": True, "kind": case["kind"]}))
+        if m.oid != ref.tree_oid(want):
+            res["viol"].append(("merged-id-not-canonical/bulk", f"{m.oid} != {ref.tree_oid(want)} (listing of {len(ref.tree_bytes(want))} bytes)",
+                                {"bulk": True, "kind": case["kind"]}))
+    res["outcomes"] = ["ok"]
+    return res
+
+
 def run_public(case):
     res = {"n": 0, "trans": 0, "states": set(), "outcomes": set(), "nontrivial": set(),
            "viol": [], "vac": {"public_merge_ok": 0}}
     vals = list(itertools.product((0, 1, 2), repeat=2))
+    alg = case.get("alg", "md5")
     with World() as w:
-        odb, infos = _public_store(w, case["kind"], PKEYS, vals)
+        odb, infos = _public_store(w, case["kind"], PKEYS, vals, alg)
         for a in [None, *vals]:
             for o in vals:
                 for t in vals:
                     for pol in case["policies"]:
                         res["n"] += 1
                         res["trans"] += 1
-                        res["states"].add(digest_obj((a, o, t)))
+                        res["states"].add(digest_obj((a, o, t, alg)))
                         sub = {"public": True, "kind": case["kind"], "a": a, "o": o, "t": t,
-                               "policy": pol, "policies": list(case["policies"])}
-                        viol, outcome = public_one(odb, infos, a, o, t, pol)
+                               "policy": pol, "policies": list(case["policies"]), "alg": alg}
+                        viol, outcome = public_one(odb, infos, a, o, t, pol, alg)
                         res["outcomes"].add(outcome)
                         if outcome == "ok":
                             res["vac"]["public_merge_ok"] += 1
@@ -360,12 +401,16 @@ def run(ctx):
         "MergeError is always an acceptable outcome (the property allows failing with a merge error)",
         "values differ in hash (and the md5 metadata field derived from it) only",
     ]
-    ctx.require("success_both_changed", "merge_error", "conflicts", "public_merge_ok", "public_fault_runs")
+    ctx.require("success_both_changed", "merge_error", "conflicts", "public_merge_ok", "public_fault_runs", "bulk_merges")
     cs = [{"keys": keys, "a": a, "policies": pols}
           for a in itertools.product((0, 1, 2), repeat=len(keys))]
     ctx.run_cases("run_case", cs, chunksize=1, det=2)
     pub = [{"kind": k, "policies": pols} for k in ("local", "base")]
+    # stores of other algorithms (listings keyed by that algorithm's name)
+    pub += [{"kind": "local", "policies": ["default", "all"], "alg": alg} for alg in ("sha256", "sha1", "md5-dos2unix")]
     for case, res in ctx.pmap("run_public", pub, 1):
+        ctx.absorb(case, res)
+    for case, res in ctx.pmap("bulk_merge", [{"kind": "local"}, {"kind": "base"}], 1):
         ctx.absorb(case, res)
     for case, res in ctx.pmap("public_fault", [{"kind": k} for k in ("local", "base")], 1):
         ctx.absorb(case, res)
